@@ -232,3 +232,13 @@ func VerifMergeEvents(r *VerifReport) *VerifReport {
 	rep.mergeEvents()
 	return fromReport(rep)
 }
+
+// VerifArgFileNames returns the file names the VDR bookkeeping finds for a
+// (dotted) output id in a fork's outs.
+func VerifArgFileNames(outs []byte, arg string) []string {
+	var m LazyArgumentMap
+	if json.Unmarshal(outs, &m) != nil {
+		return nil
+	}
+	return getMaybeFileNames(m.jsonPath(arg))
+}
